@@ -49,7 +49,7 @@ PAYLOAD_KEYS = {'duration': ('param_helper.param_32',),
                 'colors': ('ColorMatrix.get_colors',)}
 
 
-@rule('R07.a', ('C07',), 'every value reaching the network layer is clamped '
+@rule('R07.a', ('C07', 'C12'), 'every value reaching the network layer is clamped '
       'and rounded', floor=14,
       decides='every colour component, power level and duration handed to a '
               'light is an integer the protocol can carry, whatever the '
